@@ -131,8 +131,9 @@ def run(ctx):
         bl = c["bl"]
         drop_ok = bool(oka and (lib.parse_bool_list(oa) or [False])[0])
         o = o + "\n" + oa
-        wit = re.search(r"=\s*Some\s*\(\s*(\d+)\s*,\s*(\d+)\s*\)\s*:\s*option \(nat \* nat\)", o) if okc else None
-        iw = re.search(r"=\s*Some\s*(\d+)\s*:\s*option nat", o) if okc else None
+        # (with Q scope open Coq prints nat literals as 0%nat)
+        wit = re.search(r"=\s*Some\s*\(\s*(\d+)(?:%nat)?\s*,\s*(\d+)(?:%nat)?\s*\)\s*:\s*option \(nat \* nat\)", o) if okc else None
+        iw = re.search(r"=\s*Some\s*(\d+)(?:%nat)?\s*:\s*option nat", o) if okc else None
         base = {"program_text": c["text"], "prog_json": c["pj"], "goals_json": c["gj"], "goal": c["goal"], "flat_program": c["flat_text"], "monomials": c["gr"]["monomials"],
                 "matrix": c["gr"]["matrix"], "vector": c["gr"]["vector"], "validators": bl, "why": c["why"]}
         if bl and not bl[0] and drop_ok and bl[2]:
